@@ -27,7 +27,14 @@ def injector(ctx):
         from ..ceval import CEval
         from ..bits import Unresolved
         tt_ok = None
+        # statements the evaluator cannot unroll (written per phase inside a comprehension) that drive the PHY side from anything but the controller side: the truth
+        # table would be blind to them, so the guard rules below decide alone
+        blind = [l for l in v.leaves if l.inst == "" and l.quants and l.target is not None and isinstance(l.target, V)
+                 and any(r_ == "master" or r_.startswith("master.") for r_ in support(l.target))
+                 and not any(r_ == "slave" or r_.startswith("slave.") for r_ in (support(l.value) if isinstance(l.value, V) else set()))]
         try:
+            if blind:
+                raise Unresolved("per-phase statements in a comprehension drive the PHY side: %s" % str(blind[0])[:80])
             flds = [("p0.address", 14, 0x1A5, 0x25A), ("p1.address", 14, 0x0F0, 0x30F), ("p0.cas_n", 1, 0, 1), ("p1.we_n", 1, 1, 0), ("p0.wrdata", 32, 0x1234, 0xBEEF),
                     ("p0.bank", 3, 5, 2), ("p1.wrdata_en", 1, 1, 0), ("p0.cs_n", 1, 0, 1), ("p1.cs_n", 1, 1, 0)]
             cfg = {}
@@ -41,9 +48,13 @@ def injector(ctx):
                     continue      # the clam-shell broadcast is written per phase in a comprehension the evaluator does not unroll: left to the guard rule below
                 for s_, e_ in ((1, 0), (1, 1), (0, 0), (0, 1)):
                     outs = []
-                    for sv in (a_, b_):
+                    # every other input of the block (CSR storages and strobes of the software path) is tried all-zero and all-one: in hardware / external
+                    # mode none of them may reach the PHY side
+                    for sv, du in ((a_, 0), (b_, 0), (a_, 1), (b_, 1)):
+                        if du and not s_:
+                            continue      # software mode: the CSR path legitimately drives the PHY; only independence from the controller side is checked (du = 0 rows)
                         env = {sel: s_, "ext_dfi_sel": e_, "slave." + f_: sv, "ext_dfi." + f_: (a_ ^ b_ ^ sv) if w_ > 1 else sv ^ 1}
-                        ce = CEval(v, env, cfg, default_undriven=0)
+                        ce = CEval(v, env, cfg, default_undriven=du)
                         mw_ = 2 * w_ if (cs and f_.endswith("cs_n")) else w_
                         outs.append((sv, env["ext_dfi." + f_], ce.val(Sym("master." + f_)) & ((1 << mw_) - 1)))
                         nrow += 1
